@@ -1,3 +1,5 @@
+// `ast_grep_verif` is a custom cfg only set by the verification harness
+#![allow(unexpected_cfgs)]
 use crate::print::Printer;
 use crate::utils::FileTrace;
 
@@ -106,6 +108,29 @@ fn filter_result(result: Result<DirEntry, ignore::Error>) -> Option<PathBuf> {
   }
 }
 
+/// Verification hook (only compiled with `--cfg ast_grep_verif`): when AST_GREP_VERIF_SCHED
+/// holds a seed, every producer sleeps a few milliseconds derived from (seed, path, stage),
+/// so that a test harness can steer the completion order of the walker threads.
+#[cfg(ast_grep_verif)]
+fn verif_sched_delay(path: &Path, stage: u8) {
+  use std::hash::{Hash, Hasher};
+  use std::sync::OnceLock;
+  static SEED: OnceLock<Option<u64>> = OnceLock::new();
+  let seed = SEED.get_or_init(|| {
+    std::env::var("AST_GREP_VERIF_SCHED")
+      .ok()
+      .and_then(|s| s.parse().ok())
+  });
+  let Some(seed) = seed else {
+    return;
+  };
+  #[allow(deprecated)]
+  let mut hasher = std::collections::hash_map::DefaultHasher::new();
+  (seed, path, stage).hash(&mut hasher);
+  let millis = hasher.finish() % if stage == 0 { 8 } else { 4 };
+  std::thread::sleep(std::time::Duration::from_millis(millis));
+}
+
 fn run_worker<W: PathWorker + ?Sized + 'static, P: Printer>(
   worker: Arc<W>,
   printer: P,
@@ -128,10 +153,14 @@ fn run_worker<W: PathWorker + ?Sized + 'static, P: Printer>(
         };
         let stats = w.get_trace();
         stats.add_scanned();
+        #[cfg(ast_grep_verif)]
+        verif_sched_delay(&p, 0);
         let Ok(items) = w.produce_item::<P>(&p, processor) else {
           stats.add_skipped();
           return WalkState::Continue;
         };
+        #[cfg(ast_grep_verif)]
+        verif_sched_delay(&p, 1);
         for result in items {
           match tx.send(result) {
             Ok(_) => continue,
